@@ -73,9 +73,19 @@ func genC05(rt *rapid.T) c05Case {
 		}
 		c.Pingers = append(c.Pingers, p)
 	}
+	if rapid.IntRange(0, 3).Draw(rt, "stuckControlFrame") == 0 {
+		// template: the transport stops after a few bytes, a Ping gets stuck holding the frame
+		// lock, a streaming writer with a short deadline reaches its Close meanwhile, and
+		// someone else writes after the transport has recovered
+		c.GateAt, c.GateFor, c.GateBytes = 10*time.Millisecond, time.Second, int64(rapid.IntRange(0, 3).Draw(rt, "stuckAfter"))
+		c.Pingers = append(c.Pingers, c16Writer{Start: 20 * time.Millisecond, Msgs: []c16Msg{{}}})
+		c.Writers = append(c.Writers,
+			c16Writer{Start: 0, Msgs: []c16Msg{{Len: 300, UseWriter: true, Chunks: []int{100}, ChunkGap: 40 * time.Millisecond, Timeout: time.Duration(rapid.IntRange(60, 400).Draw(rt, "closeDeadlineMs")) * time.Millisecond}}},
+			c16Writer{Start: 2 * time.Second, Msgs: []c16Msg{{Len: 100}, {Len: 4000, Gap: time.Second}}})
+	}
 	c.Closer = rapid.SampledFrom([]string{"none", "none", "Close", "CloseNow", "closeread-data", "reader-ctx"}).Draw(rt, "closer")
 	c.CloseAt = drawDur(rt, "closeAt")
-	if rapid.IntRange(0, 2).Draw(rt, "gate") == 0 {
+	if c.GateFor == 0 && rapid.IntRange(0, 2).Draw(rt, "gate") == 0 {
 		c.GateAt = drawDur(rt, "gateAt")
 		c.GateFor = rapid.SampledFrom([]time.Duration{time.Millisecond, time.Second, 3 * time.Second}).Draw(rt, "gateFor")
 		c.GateBytes = int64(rapid.SampledFrom([]int{0, 1, 3, 9, 100, 5000}).Draw(rt, "gateBytes"))
